@@ -2,9 +2,11 @@
 
 impl: Element.replace (count / replace / formatted), search, search_first, search_all, match,
 text_at on generated inline layouts (nested spans and links, text:s / tab / line-break), called on
-the paragraph and on inner spans / links (which have a tail).
+the paragraph / heading and on inner spans / links (which have a tail); besides the fixed pattern family, patterns derived
+from the layout (first / last word of one of its text nodes, anchored) so that a replacement lands at the edge of a container.
 oracle (lxml + re only): per-text-node finditer / sub over the token stream, start tags before and
-after, own-text projection.  model: OdfModel/Para/Replace.lean with `re` as the matcher."""
+after, own-text projection; for formatted=True every rebuilt container (paragraph / heading / span hosting a match)
+is compared with a freshly created Paragraph / Header / Span of its resulting text and read back with the ODF white-space rules.  model: OdfModel/Para/Replace.lean with `re` as the matcher."""
 from __future__ import annotations
 
 import re
@@ -14,9 +16,13 @@ import paratok as pt
 from core import enc_str
 
 PATTERNS = ["a", "b", "ab", "a+", "[ab]+", "b|c", "ab?", " ", "a b", "^a", "b$", r"\w+", "x", "zz", "(a)(b)", "a.", r"\s", "[^ ]+", "a{2}", "é", "^ ?a", r"\bb",
-            "a$|b", "(?<=a)b", "c ", r"\s+"]
+            "a$|b", "(?<=a)b", "c ", r"\s+", r"^\w+", r"\w+$", r"^\S+|\S+$", "^[abc]+", "[ab]+$"]
 NEWS = ["", "X", "yy", "a", "b a", "-", "é"]
 NEWS_FMT = ["p  q", "x\ty", "l1\nl2", "  lead", "trail  ", "u \t\n v", "one two", "Z", "", " ", " w", "w "]
+# replacements that leave at most single blanks (at an edge of the replaced match): the encoding of the result then depends on WHERE the match was
+NEWS_EDGE = ["", " ", " w", "w ", " w ", "u v"]
+FORMATTABLE = (pt.T + "p", pt.T + "h", pt.T + "span")
+WS_KINDS = (pt.K_S, pt.K_TAB, pt.K_LB)
 
 
 def snapshot(el, labels, other):
@@ -73,6 +79,54 @@ def targets(p):
     return out
 
 
+def rebuilt_hosts(le, rx):
+    """lxml elements under `le` (itself included, its tail excluded) that are a paragraph / heading / span and host a text node (their text, or
+    the tail of one of their children) in which the pattern matches: the containers replace(formatted=True) has to re-encode"""
+    out = []
+    for e in le.iter():
+        if not isinstance(e.tag, str) or e.tag not in FORMATTABLE:
+            continue
+        hosted = [e.text] + [ch.tail for ch in e]
+        if any(x and rx.search(x) for x in hosted):
+            out.append(e)
+    return out
+
+
+def derived_pattern(rng, nodes):
+    """a pattern built from the layout: the first / last word of one of its text nodes, anchored at the node's edge or at a word boundary
+    (never matches the empty string)"""
+    words = [(n, re.findall(r"\S+", n)) for n in nodes]
+    words = [(n, w) for n, w in words if w]
+    if not words:
+        return None
+    _, ws = rng.choice(words)
+    first, last = re.escape(ws[0]), re.escape(ws[-1])
+    return rng.choice(["^%s" % first, "%s$" % last, "^%s|%s$" % (first, last), "^ ?%s" % first, "%s ?$" % last, r"^%s\b" % first, r"\b%s$" % last,
+                       "(?<= )%s$" % last, "^%s(?= )" % first, "^%s | %s$" % (first, last)])
+
+
+def show(toks):
+    """readable, JSON-serialisable rendering of the inside of a container"""
+    out = []
+    skip = False
+    for t in toks:
+        if t[0] == "T":
+            out.append(t[3])
+        elif t[0] == "O":
+            out.append({pt.K_S: "<s:%s>" % t[2], pt.K_TAB: "<tab>", pt.K_LB: "<line-break>"}.get(t[1], "<el kind=%s>" % t[1]))
+            skip = t[1] in WS_KINDS
+        elif skip:
+            skip = False
+        else:
+            out.append("</>")
+    return out
+
+
+def inside(toks):
+    """tokens between the start and end tag of a container, without the empty text nodes lxml keeps"""
+    return [t for t in toks[1:-1] if not (t[0] == "T" and t[3] == "")]
+
+
 def enc_spans(toks, rx):
     nodes = [t for t in toks if t[0] == "T"]
     if not nodes:
@@ -81,20 +135,24 @@ def enc_spans(toks, rx):
 
 
 def run(chk: core.Check) -> None:
-    from odfdo import Element
+    from odfdo import Element, Header, Paragraph, Span
 
+    fresh_of = {pt.T + "p": lambda s_: Paragraph(s_), pt.T + "h": lambda s_: Header(1, s_), pt.T + "span": lambda s_: Span(s_)}
     rng = chk.rng
     chk.rule = (
-        "layouts: random inline forests (text, nested spans / links, text:s, tab, line-break; a fifth with raw white-space runs) x targets {the paragraph, inner "
-        "spans / links with a tail} x 26 patterns (literals, classes, repetitions, alternations, anchors, look-behind, groups; none matches the empty string) x "
-        "replacement strings (plain; with blanks, tabs, newlines for formatted=True). non-trivial = more than one text node or a white-space element; distinct by "
+        "layouts: random inline forests (text, nested spans / links, text:s, tab, line-break; a fifth with raw white-space runs; one in eight is a text:h) x targets "
+        "{the paragraph / heading, inner spans / links with a tail} x 31 patterns (literals, classes, repetitions, alternations, anchors, look-behind, groups; none "
+        "matches the empty string) + one pattern derived from the layout (first / last word of one of its text nodes, anchored at the node's edge) x "
+        "replacement strings (plain; with blanks, tabs, newlines for formatted=True; for the derived pattern mostly '', ' ', ' w', 'w ' so that single blanks end "
+        "up at the edge of a paragraph / heading / span). formatted=True: every container hosting a match is compared with a fresh Paragraph / Header / Span of "
+        "its resulting text (when it holds text and text:s only), read back with the ODF white-space rules, and must not begin / end with a raw blank. non-trivial = more than one text node or a white-space element; distinct by "
         "(layout xml, target, pattern, replacement)"
     )
     reqs = []
     for _ in range(chk.n(300, 5000)):
         raw = rng.random() < 0.2
         pieces = pt.gen_pieces(rng, raw_ws=raw, rich=False)
-        xml0 = pt.make_paragraph(pieces).serialize()
+        xml0 = pt.make_paragraph(pieces, "text:h" if rng.random() < 0.125 else "text:p").serialize()
         labels = pt.Labels()
         other: dict = {}
         p0 = Element.from_tag(xml0)
@@ -102,8 +160,13 @@ def run(chk: core.Check) -> None:
         t_par = snapshot(p0, labels, other)
         nontriv = len(pt.text_nodes(t_par)) > 1 or any(t[0] == "O" and t[1] in (1, 2, 3) for t in t_par)
         chk.count("layout", f"{min(len(pt.text_nodes(t_par)), 6)} text nodes" + ("/raw-ws" if raw else ""))
-        for pat in rng.sample(PATTERNS, 4):
+        pats = [(pat, False) for pat in rng.sample(PATTERNS, 4)]
+        dpat = derived_pattern(rng, pt.text_nodes(t_par))
+        if dpat is not None and all(dpat != q for q, _ in pats):
+            pats.append((dpat, True))
+        for pat, derived in pats:
             rx = re.compile(pat)
+            chk.count("pattern", "derived from the layout" if derived else "fixed family")
             for tname in tnames:
                 # ---------------- count + searches (no modification) --------------------------------
                 p = Element.from_tag(xml0)
@@ -148,10 +211,11 @@ def run(chk: core.Check) -> None:
                 for s_, e_, g_ in ta:
                     reqs.append((f"rp textat {s_} {'N' if e_ is None else e_} {enc_str(own)}", f"ok {enc_str(g_)}", {**case, "text_at": (s_, e_)}))
                 # ---------------- replace -------------------------------------------------------------
-                for new, formatted in [(rng.choice(NEWS), False), (rng.choice(NEWS_FMT), True)]:
+                for new, formatted in [(rng.choice(NEWS), False), (rng.choice(NEWS_EDGE if derived and rng.random() < 0.7 else NEWS_FMT), True)]:
                     p = Element.from_tag(xml0)
                     el = dict(targets(p))[tname]
                     t0 = snapshot(el, labels, other)
+                    hosts = rebuilt_hosts(pt.lxml_of(el), rx) if formatted else []
                     out0 = outside_text(p, el, labels, other)
                     case = {"xml": xml0, "target": tname, "pattern": pat, "new": new, "formatted": formatted}
                     chk.case((xml0, tname, pat, new, formatted), nontrivial=nontriv)
@@ -190,12 +254,51 @@ def run(chk: core.Check) -> None:
                             if bad:
                                 chk.fail({**case, "clause": "formatted-encodes-white-space", "raw_nodes": bad}, "replace(formatted=True) left runs of blanks / tabs / newlines as raw characters in a rebuilt paragraph, heading or span")
                                 continue
+                        # every container hosting a match is encoded like a freshly created paragraph / heading / span
+                        if not check_rebuilt(chk, case, hosts, fresh_of, labels, other):
+                            continue
                         if out0 != outside_text(p, el, labels, other):
                             chk.fail({**case, "clause": "neighbouring-text"}, "replace(formatted=True) on an inner element changed text outside it")
     answers = core.run_driver([q for q, _, _ in reqs])
     for (q, exp, case), ans in zip(reqs, answers):
         if exp != drop_empty(ans):
             chk.disagree({**case, "line": q[:500]}, f"impl {exp[:300]!r} != model {ans[:300]!r}")
+
+
+def check_rebuilt(chk, case, hosts, fresh_of, labels, other) -> bool:
+    """formatted=True, after the replacement: each container in `hosts` (lxml elements, found before the replacement) must be encoded as a fresh
+    container of its class would encode the same characters. Returns False after reporting a violation."""
+    for k, h in enumerate(hosts):
+        toks = pt.unhide(pt.tokens(h, labels, other))
+        ins = inside(toks)
+        chars = pt.plain_main(toks)
+        kind = h.tag.rsplit("}", 1)[1]
+        ws_only = all(t[1] in WS_KINDS for t in ins if t[0] == "O")
+        edge = (chars[:1] == " " and chars[1:2] != " ", chars[-1:] == " " and chars[-2:-1] != " " and len(chars) > 1)
+        chk.count("rebuilt container", kind + (", text / white-space elements only" if ws_only else ", with inner elements"))
+        chk.count("rebuilt container: single blank at", {(False, False): "no edge", (True, False): "start", (False, True): "end", (True, True): "both edges"}[edge])
+        info = {**case, "container": kind, "container_no": k, "chars": chars, "got": show(ins)}
+        # (a) a fresh container never begins or ends with a raw blank (an ODF consumer drops it)
+        if ins and ((ins[0][0] == "T" and ins[0][3][:1] == " ") or (ins[-1][0] == "T" and ins[-1][3][-1:] == " ")):
+            chk.fail({**info, "clause": "formatted-edge-blank"},
+                     "replace(formatted=True) left a raw blank at the start / end of a rebuilt paragraph, heading or span (a fresh one encodes it as text:s)")
+            return False
+        if not ws_only:
+            continue
+        # (b) read back with the ODF white-space rules, the container gives its characters (as any fresh container does)
+        back = pt.consumer(toks)
+        if back != chars:
+            chk.fail({**info, "clause": "formatted-normal-form", "consumer_reads": back},
+                     "replace(formatted=True): an ODF consumer does not read back the characters of the rebuilt paragraph, heading or span")
+            return False
+        # (c) same encoding as a freshly created container of these characters (blanks only: next to a tab / line break the library has two spellings)
+        if "\t" not in chars and "\n" not in chars:
+            want = inside(pt.unhide(pt.tokens(pt.lxml_of(fresh_of[h.tag](chars)), labels, other)))
+            if ins != want:
+                chk.fail({**info, "clause": "formatted-as-fresh", "want": show(want)},
+                         "replace(formatted=True): the rebuilt container is not encoded like a freshly created paragraph / heading / span of the same text")
+                return False
+    return True
 
 
 def drop_empty(line: str) -> str:
